@@ -909,7 +909,6 @@ func (cacheStream) Execute(c Case) {
 	}
 }
 
-
 // historyCache: the cache of a case with a "prelayout", created on the earlier population of the directories
 var historyCache *cdi.Cache
 
